@@ -454,6 +454,18 @@ def rule_x10(text, log, ty):
     return t
 
 
+def rule_x12(text, log):
+    """byte-string literals b"..." -> the array literal they denote (&[b0, b1, ...]); Verus leaves the contents of a
+    byte-string literal uninterpreted"""
+    def rep(mm):
+        raw = mm.group(1)
+        bs = bytes(raw, 'ascii').decode('unicode_escape').encode('latin-1')
+        new = '&[' + ", ".join('%du8' % b for b in bs) + ']'
+        log.append({'rule': 'X12', 'before': mm.group(0), 'after': new})
+        return new
+    return re.sub(r'(?<![A-Za-z0-9_])b"((?:\\.|[^"\\])*)"', rep, text)
+
+
 # ---------------------------------------------------------------------------------- injection
 def enclosing_statement(text, idx):
     """innermost statement (start, end) containing position idx"""
@@ -494,6 +506,8 @@ def resolve_anchor(text, anchor):
         st = top_statements(text)
         if st and not m[st[-1][0]:st[-1][1]].rstrip().endswith((';', '}')):
             return st[-1][0]        # the body ends in a tail expression: ghost code goes before it
+        if st and not m[st[-1][0]:st[-1][1]].rstrip().endswith(';') and '->' in m[:body_open(text)]:
+            return st[-1][0]        # value-returning fn whose tail expression is block-like (struct literal, if/match)
         return match_close(m, body_open(text))
     if a[0] == 'loop':
         ls = loops(text)
@@ -657,6 +671,8 @@ def apply_rules(text, flags, log, path):
         text = rule_x8(text, mylog)
     if 'x9' in flags:
         text = rule_x9(text, mylog)
+    if 'x12' in flags:
+        text = rule_x12(text, mylog)
     if 'x10' in flags:
         v = flags['x10']
         text = rule_x10(text, mylog, v if isinstance(v, str) else None)
